@@ -146,7 +146,7 @@ def parse_macro_rules(text):
     params = []
     j = ob + 2
     while j < mcl:
-        if c.seq(j, "$", "(", "$") and c.seq(j + 4, ":", "tt", ")", "*") and j + 8 == mcl and not params:
+        if c.seq(j, "$", "(", "$") and c.seq(j + 4, ":", "tt", ")") and c.t(j + 7) in ("*", "+") and j + 8 == mcl and not params:
             # ($($x:tt)*): the whole argument token stream, transcribed by `$($x)*`
             params.append("*" + c.t(j + 3))
             j += 8
@@ -184,7 +184,7 @@ def rule_local_macros(text, macros):
                     j = 0
                     while j < len(bc):
                         if bc.t(j) == "$":
-                            if not (bc.seq(j, "$", "(", "$", params[0][1:], ")", "*")):
+                            if not (bc.seq(j, "$", "(", "$", params[0][1:], ")") and bc.t(j + 5) in ("*", "+")):
                                 raise Unsupported("macro %s: transcriber uses $%s other than as $($%s)*" % (c.t(k), params[0][1:], params[0][1:]))
                             edits.append((bc.pos(j), bc.end(j + 5), stream))
                             j += 6
@@ -553,6 +553,25 @@ def rule_async(text):
                 return (c.pos(k), c.end(j), inner)
         return None
     return rewrite(text, finder)
+
+
+def rule_no_opaque_closures(text):
+    """Soundness guard of the unfolding rules (R8).  A closure that survives them is opaque to the verifier: whatever combinator
+    it is passed to (`map_or`, `and_then`, `unwrap_or_else`, `then`, ..) yields a value about which nothing is known, and a CORRECT
+    function would then fail its postcondition.  Such text is outside the rules (contract assumed, property undecided) - except
+    under `catch_unwind(AssertUnwindSafe(..))`, whose precondition is unsatisfiable by design."""
+    c = Code(text)
+    for k in range(len(c)):
+        if c.kind(k) != "p" or c.t(k) not in ("|", "||"):
+            continue
+        prev = c.t(k - 1)
+        if prev in ("(", ",", "=", "move", "return", "{", ";", "=>") or (prev == "" and k == 0):
+            eo = c.enclosing_open(k)
+            if eo >= 0 and c.t(eo) == "(" and c.t(eo - 1) in ("AssertUnwindSafe", "catch_unwind"):
+                continue
+            raise Unsupported("a closure remains after the unfolding rules (its effect on the value it is passed to is opaque): %s"
+                              % c.text[c.pos(k):c.pos(k) + 40].replace("\n", " "))
+    return text
 
 
 def rule_lazy_futures(text, async_names):
